@@ -449,6 +449,9 @@ htp_status_t htp_connp_RES_BODY_CHUNKED_LENGTH(htp_connp_t *connp) {
                 connp->out_state = htp_connp_RES_BODY_IDENTITY_STREAM_CLOSE;
                 connp->out_tx->response_transfer_coding = HTP_CODING_IDENTITY;
 
+                // The line is going to be counted as body data.
+                connp->out_tx->response_message_len -= len;
+
                 htp_log(connp, HTP_LOG_MARK, HTP_LOG_ERROR, 0,
                         "Response chunk encoding: Invalid chunk length: %"PRId64"",
                         connp->out_chunked_length);
